@@ -415,7 +415,7 @@ var playerKeys = []string{"player", "score", "ping", "team", "vip", "coopstatus"
 	"arrests", "arrested", "vescaped", "arrestedvip", "unarrestedvip", "validvipkills", "invalidvipkills",
 	"bombsdiffused", "rdcrybaby", "sgcrybaby", "escapedcase", "killedcase"}
 
-// RandValue draws a backslash-free value (never the word `queryid`); latin-1 high bytes when latin.
+// RandValue draws a backslash-free value (never the words `queryid`, `statusresponse`); latin-1 high bytes when latin.
 func RandValue(rng interface{ Intn(int) int }, latin bool) []byte {
 	n := 0
 	switch rng.Intn(6) {
@@ -444,7 +444,7 @@ func RandValue(rng interface{ Intn(int) int }, latin bool) []byte {
 		}
 		b[i] = c
 	}
-	if string(b) == "queryid" {
+	if string(b) == "queryid" || string(b) == "statusresponse" {
 		b[0] = 'Q'
 	}
 	return b
